@@ -308,6 +308,13 @@ def bincount_cases(draw):
                 pts1.append(htmsets.neighbour(first, draw(st.floats(0.0, 360.0)), csize * math.sqrt(draw(sky.unit))))
             else:
                 pts1.append(draw(htmsets.any_point()))
+    if draw(st.integers(0, 2)) == 0:
+        # the same position listed several times in a row (one object entered once per scale, a catalogue with
+        # duplicates): every entry is a point of its own
+        rep = []
+        for p_ in pts1:
+            rep += [list(p_)] * draw(st.integers(1, 3))
+        pts1 = rep
     bulk1 = None
     tri = max(1.0, htmsets.tri_count(tmax, depth))
     budget = 1e6 if not thorough else 5e6
@@ -509,6 +516,9 @@ def classify_bincount(case):
             "scale:" + ("none" if sc is None else "array" if isinstance(sc, list) else "scalar"),
             "pre:" + case["pre"], "nbin:%s" % (case["nbin"] if case["nbin"] < 4 else "5+"),
             "container:" + case["container"]]
+    p1 = case["set1"]["pts"]
+    if any(p1[i] == p1[i + 1] for i in range(len(p1) - 1)):
+        labs.append("first-list-repeats-a-position" + ("-with-other-scale" if isinstance(sc, list) and len(set(sc)) > 1 else ""))
     nonempty = int((t.lo > 0).sum())
     labs.append("nonempty-bins:%s" % (nonempty if nonempty < 2 else "2+"))
     if nonempty >= 2:
